@@ -12,6 +12,9 @@ requests (space separated; `-` = empty list; sections introduced by single capit
 responses: see the `fmt*` functions (identical strings are produced by harness/src/bin/c17.rs)
 -/
 import FontVerif.Model.Subset
+import FontVerif.Drv.C17Cmap
+import FontVerif.Drv.C17Hvar
+import FontVerif.Drv.C17Gvar
 namespace FontVerif.Drv.C17
 open FontVerif FontVerif.Subset
 
@@ -108,6 +111,12 @@ def handle (cmd : String) (args : List String) : Option String :=
     if rem < 0 ∨ gid < 0 then none else
     let r := closureGo (← compsList g) rem.toNat gid.toNat (← natList s, ops)
     some s!"{joinNats (r.1.toArray.qsort (· < ·)).toList} {r.2}"
-  | _ => none
+  | _ =>
+    match C17Cmap.handle cmd args with
+    | some r => some r
+    | none =>
+      match C17Hvar.handle cmd args with
+      | some r => some r
+      | none => C17Gvar.handle cmd args
 
 end FontVerif.Drv.C17
